@@ -787,3 +787,262 @@ func c12ZeroVarianceExact(c *Ctx, p *Prog, R string) {
 	}
 	c.Floor(R, "returns of ErrZeroVariance", n, 3)
 }
+
+// c16MarginsComplete (C16/R14): a column's left margin is the widest of all its cells' margins, so it is known only
+// after the loop that collects it: inside any loop that still stores into the margin table, an element read from it
+// may flow back into the table (the running maximum) and nowhere else.
+func c16MarginsComplete(c *Ctx, p *Prog) {
+	const R = "C16/R14"
+	fn := p.Method("cmd/benchstat/internal/texttab", "Table", "Format")
+	lmF := p.Field("cmd/benchstat/internal/texttab", "textCell", "leftMargin")
+	if fn == nil || lmF == nil {
+		c.Undecided(R, "anchor:Table.Format/cell.leftMargin", "", "not found")
+		return
+	}
+	n := 0
+	eachInstr(fn, func(_ *ssa.BasicBlock, in ssa.Instruction) {
+		ms, ok := in.(*ssa.MakeSlice)
+		if !ok {
+			return
+		}
+		// stores into elements of this slice
+		var stores []*ssa.Store
+		for _, r := range *ms.Referrers() {
+			if ia, ok := r.(*ssa.IndexAddr); ok {
+				for _, r2 := range *ia.Referrers() {
+					if st, ok := r2.(*ssa.Store); ok && st.Addr == ssa.Value(ia) {
+						stores = append(stores, st)
+					}
+				}
+			}
+		}
+		isMargin := false
+		for _, st := range stores {
+			if reaches(st.Val, func(x ssa.Value) bool {
+				if f, _ := fieldOfVal(x); f == lmF {
+					return true
+				}
+				f, _ := fieldOfAddr(x)
+				return f == lmF
+			}) {
+				isMargin = true
+			}
+		}
+		if !isMargin {
+			return
+		}
+		n++
+		loops := naturalLoops(fn)
+		building := func(b *ssa.BasicBlock) bool {
+			for _, lp := range loops {
+				if !lp.Blocks[b] {
+					continue
+				}
+				for _, st := range stores {
+					if lp.Blocks[st.Block()] {
+						return true
+					}
+				}
+			}
+			return false
+		}
+		bad := ""
+		for _, r := range *ms.Referrers() {
+			ia, ok := r.(*ssa.IndexAddr)
+			if !ok {
+				continue
+			}
+			for _, r2 := range *ia.Referrers() {
+				ld, ok := r2.(*ssa.UnOp)
+				if !ok || ld.Op != token.MUL || !building(ld.Block()) {
+					continue
+				}
+				// forward: where does the loaded value go?
+				seen := map[ssa.Value]bool{}
+				var fwd func(v ssa.Value)
+				fwd = func(v ssa.Value) {
+					if seen[v] {
+						return
+					}
+					seen[v] = true
+					for _, u := range *v.Referrers() {
+						switch x := u.(type) {
+						case *ssa.Store:
+							if ia2, ok := x.Addr.(*ssa.IndexAddr); ok && ia2.X == ssa.Value(ms) {
+								continue
+							}
+							bad = p.pos(x.Pos())
+						case *ssa.BinOp:
+							if x.Op == token.ADD || x.Op == token.SUB || x.Op == token.MUL {
+								fwd(x)
+							}
+							// comparisons decide nothing but which value is kept
+						case *ssa.Phi:
+							fwd(x)
+						case *ssa.Convert:
+							fwd(x)
+						case *ssa.Call:
+							if bi, ok := x.Call.Value.(*ssa.Builtin); ok && (bi.Name() == "max" || bi.Name() == "min") {
+								fwd(x)
+							} else {
+								bad = p.pos(x.Pos())
+							}
+						case *ssa.If:
+						default:
+							if pos := p.pos(u.Pos()); pos != "" {
+								bad = pos
+							}
+						}
+					}
+				}
+				fwd(ld)
+			}
+		}
+		c.Check(bad == "", R, fmt.Sprintf("Format:margin table#%d read when complete", n), p.pos(ms.Pos()), "inside the collecting loop the margins only feed their own maximum",
+			"a column's left margin is used (at "+bad+") inside the loop that is still collecting the margins: a cell is then sized with the widest margin seen so far, not the column's, and a later row with a wider margin overruns the column")
+	})
+	c.Floor(R, "margin tables in Table.Format", n, 1)
+}
+
+// c18LessComparesTwo (C18/R14): a sort comparison compares element i with element j: in every func(i, j int) bool
+// closure of the package no comparison has both operands computed from the same one index.
+func c18LessComparesTwo(c *Ctx, p *Prog, R string, rels ...string) {
+	n := 0
+	for _, fn := range p.Funcs(rels...) {
+		if fn.Parent() == nil || len(fn.Params) != 2 || fn.Signature.Results().Len() != 1 || !isBoolean(fn.Signature.Results().At(0).Type()) || !isInteger(fn.Params[0].Type()) || !isInteger(fn.Params[1].Type()) {
+			continue
+		}
+		i, j := fn.Params[0], fn.Params[1]
+		eachInstr(fn, func(_ *ssa.BasicBlock, in ssa.Instruction) {
+			bo, ok := in.(*ssa.BinOp)
+			if !ok {
+				return
+			}
+			switch bo.Op {
+			case token.LSS, token.GTR, token.LEQ, token.GEQ, token.EQL, token.NEQ:
+			default:
+				return
+			}
+			dep := func(v ssa.Value) (bool, bool) {
+				return reaches(v, func(x ssa.Value) bool { return x == ssa.Value(i) }), reaches(v, func(x ssa.Value) bool { return x == ssa.Value(j) })
+			}
+			xi, xj := dep(bo.X)
+			yi, yj := dep(bo.Y)
+			if !(xi || xj) || !(yi || yj) {
+				return
+			}
+			n++
+			same := xi && yi && !xj && !yj || xj && yj && !xi && !yi
+			c.Check(!same, R, fmt.Sprintf("%s:comparison#%d", fnName(fn), n), p.pos(bo.Pos()), "compares the two elements",
+				"both sides of a comparison in a sort's less function are computed from the same index: the comparison is constant, elements that differ only in this component are left in the order the map iteration produced")
+		})
+	}
+	c.Floor(R, "comparisons in less closures", n, 3)
+}
+
+// c17OneSidedByLookup (C17/R15): a row is omitted when one configuration lacks the metric: in Collection.Tables every
+// nil test of a *Metrics value tests the result of a lookup in Collection.Metrics (a row's own list holds only the
+// configurations that are present, so its positions do not say which one is missing).
+func c17OneSidedByLookup(c *Ctx, p *Prog) {
+	const R = "C17/R15"
+	fn := p.Method("benchstat", "Collection", "Tables")
+	metricsF := p.Field("benchstat", "Collection", "Metrics")
+	mT := p.Named("benchstat", "Metrics")
+	if fn == nil || metricsF == nil || mT == nil {
+		c.Undecided(R, "anchor:Collection.Tables/Metrics", "", "not found")
+		return
+	}
+	n := 0
+	eachInstr(fn, func(_ *ssa.BasicBlock, in ssa.Instruction) {
+		bo, ok := in.(*ssa.BinOp)
+		if !ok || bo.Op != token.EQL && bo.Op != token.NEQ {
+			return
+		}
+		var v ssa.Value
+		if k, ok := bo.Y.(*ssa.Const); ok && k.IsNil() {
+			v = bo.X
+		} else if k, ok := bo.X.(*ssa.Const); ok && k.IsNil() {
+			v = bo.Y
+		}
+		if v == nil {
+			return
+		}
+		pt, ok := v.Type().(*types.Pointer)
+		if !ok || !types.Identical(pt.Elem(), mT) {
+			return
+		}
+		n++
+		fromTable := false
+		var look func(v ssa.Value, d int) bool
+		look = func(v ssa.Value, d int) bool {
+			if d > 4 {
+				return false
+			}
+			switch x := v.(type) {
+			case *ssa.Lookup:
+				f, _ := loadOfField(x.X)
+				return f == metricsF
+			case *ssa.Extract:
+				return look(x.Tuple, d+1)
+			case *ssa.Phi:
+				for _, e := range x.Edges {
+					if !look(e, d+1) {
+						return false
+					}
+				}
+				return len(x.Edges) > 0
+			}
+			return false
+		}
+		fromTable = look(v, 0)
+		c.Check(fromTable, R, fmt.Sprintf("Tables:missing-metric test#%d", n), p.pos(bo.Pos()), "the tested value is a lookup in Collection.Metrics",
+			"whether a configuration lacks the metric is asked of something other than Collection.Metrics[key]: a row's list holds only the configurations present, so the test never fires and a one-sided benchmark gets a row with a fabricated delta")
+	})
+	c.Floor(R, "nil tests of *Metrics in Collection.Tables", n, 1)
+}
+
+// c04PublishedEntriesAreComplete (C04/R10): what goes into the unit cache is finished: the value handed to the
+// sync.Map's Store/LoadOrStore is not written through after that call.
+func c04PublishedEntriesAreComplete(c *Ctx, p *Prog) {
+	const R = "C04/R10"
+	n := 0
+	for _, s := range findMemoSites(p.Funcs("benchunit")) {
+		if s.Kind != "sync.Map" {
+			continue
+		}
+		n++
+		call := s.Instr.(*ssa.Call)
+		v := s.Val
+		if mi, ok := v.(*ssa.MakeInterface); ok {
+			v = mi.X
+		}
+		al, ok := v.(*ssa.Alloc)
+		bad := ""
+		if ok {
+			eachInstr(s.Fn, func(_ *ssa.BasicBlock, in ssa.Instruction) {
+				st, isSt := in.(*ssa.Store)
+				if !isSt {
+					return
+				}
+				root := st.Addr
+				for {
+					if fa, ok := root.(*ssa.FieldAddr); ok {
+						root = fa.X
+						continue
+					}
+					if ia, ok := root.(*ssa.IndexAddr); ok {
+						root = ia.X
+						continue
+					}
+					break
+				}
+				if root == ssa.Value(al) && !instrDominates(st, call) {
+					bad = p.pos(st.Pos())
+				}
+			})
+		}
+		c.Check(bad == "", R, fmt.Sprintf("%s:cache entry#%d complete when published", fnName(s.Fn), n), p.pos(call.Pos()), "the entry is filled before it is stored in the cache",
+			"the cache entry is written (at "+bad+") after it was put into the shared map: a goroutine tidying the same new unit meanwhile reads the empty entry and reports the measurement with an empty unit and factor 0")
+	}
+	c.Floor(R, "stores into the unit cache", n, 1)
+}
